@@ -204,6 +204,56 @@ def shape_empty_result(why, form, reuse):
     return 'ok'
 
 
+@cond('C07.shape.duplicate-group-key', quick=120,
+      bounds='2 rows (a, b symbolic ints or NULL, k in {NULL,0,1}); SELECT k, b IS NULL AS z, count(*) AS n GROUP BY with the first key '
+             'named twice (1, k, z / k, k, 2 / 1, 1, z): each row holds the values of its own targets, in order',
+      symbolic='a, b cells', enumerated='k cells, GROUP BY spelling', params={**_params(), 'form': int})
+def shape_duplicate_group_key(form, **kw):
+    rows = _rows(kw)
+    gb = pick([lambda: [1, col('k'), col('z')], lambda: [col('k'), col('k'), 2], lambda: [1, 1, col('z')]], form)()
+    stmt = sel([target(col('k')), target(ast.IsNull(col('b')), 'z'), target(func('count', ast.Asterisk()), 'n')], 't',
+               group_by=ast.GroupBy(gb, None))
+    desc, got = execute(connect(t=HTable('t', COLUMNS, rows)), stmt)
+    want = refsem.Ref({'t': (COLUMNS, rows)}).select(stmt)
+    if [c.name for c in desc] != ['k', 'z', 'n']:
+        return 'names'
+    for r in got:
+        if len(r) != 3 or not (r[1] is True or r[1] is False):
+            return 'value-under-the-wrong-target'
+    if not same_rows(got, want.rows):
+        return 'visible-cells'
+    return 'ok'
+
+
+SPELLINGS = [('sum(b)', 'SUM(b)'), ('a * 2', 'a*2'), ("'s'", '"s"'), ('1.0', '1.00'), ('1', 'TRUE'), ('(a) + 1', 'a + 1'),
+             ('a IS NULL', 'a is null')]
+
+
+@cond('C07.name.cursor-reuse', quick=60,
+      bounds=f'one cursor executing SELECT <e1> FROM #t and then SELECT <e2> FROM #t where e1, e2 are spellings of equal trees '
+             f'({SPELLINGS}), in either order: each result is named by the exact source text of its own statement and holds its own value',
+      symbolic='(none)', enumerated='spelling pair, order', params={'i': int, 'swap': bool})
+def name_cursor_reuse(i, swap):
+    e1, e2 = pick(SPELLINGS, i)
+    if swap:
+        e1, e2 = e2, e1
+
+    def run():
+        conn = connect(t=HTable('t', COLUMNS, [(1, 2, 0)]))
+        cur = conn.cursor()
+        for e in (e1, e2, e1):
+            text = f'SELECT {e} FROM #t'
+            cur.execute(text)
+            fresh = connect(t=HTable('t', COLUMNS, [(1, 2, 0)])).execute(text)
+            if [c.name for c in cur.description] != [e]:
+                return f'named-{cur.description[0].name!r}-instead-of-the-source-text-{e!r}'
+            got, want = cur.fetchall(), fresh.fetchall()
+            if [tuple(repr(x) for x in r) for r in got] != [tuple(repr(x) for x in r) for r in want]:
+                return 'value-of-the-earlier-statement'
+        return 'ok'
+    return native(run)
+
+
 @cond('C07.shape.duplicates', quick=120,
       bounds='2 rows; SELECT a, a, b AS a, a + 1 AS b: duplicate names are allowed and preserved, positions keep their own values',
       symbolic='cells', params=_params())
